@@ -15,14 +15,14 @@ func init() { Scenarios["C19"] = scenarioC19 }
 
 // fakeRes is the counting underlying resource.
 type fakeRes struct {
-	name       string
-	closes     int
-	closeFail  int // 0 never, 1 first close fails, 2 always fails
-	ioFail     bool
-	short      bool
-	reads      int
-	writes     int
-	preClosed  bool // reports "use of closed" on every call, as an already-closed descriptor does
+	name      string
+	closes    int
+	closeFail int // 0 never, 1 first close fails, 2 always fails
+	ioFail    bool
+	short     bool
+	reads     int
+	writes    int
+	preClosed bool // reports "use of closed" on every call, as an already-closed descriptor does
 }
 
 var errFakeClose = errors.New("fake: close failed")
